@@ -155,8 +155,13 @@ static int apply_dfs(const options_t *opt, sqfs_xattr_writer_t *xwr,
 		}
 	}
 
-	if (maphnd != NULL && xattr_apply_map_file(path, maphnd, xwr) != 0)
-		goto fail;
+	if (maphnd != NULL) {
+		ret = xattr_apply_map_file(path, maphnd, xwr);
+		if (ret != 0) {
+			sqfs_perror(path, "applying xattrs from map file", ret);
+			goto fail;
+		}
+	}
 
 	if (sehnd != NULL && selinux_relable_node(sehnd, xwr, n, path) != 0)
 		goto fail;
